@@ -116,7 +116,8 @@ func searchOutcome(e *jmespath.Expression, data any) (out string, res any) {
 
 var histExprs = []string{"sort(a)", "sort_by(objs, &k)", "reverse(a)", "to_array(a)", "a[1:3]", "a[::-1]", "a[*]", "a[?@ > `1`]", "`[3,1,2]`", "sort(`[3,1,2]`)", "merge(o, o2)", "group_by(objs, &to_string(k))",
 	"a[]", "objs[*].k", "a[*]", "[a[*], a]", "s[*]", "a[*] | [0]", "`[1,null,2,null,3]`[*]", "a[?@]", "a[:3]", "a[1:]", "[a[1:], a]", "a[*][]", "flatten_me[]", "not_null(a[*])", "max_by(objs, &k)", "a", "o", "keys(o)", "values(o)", "items(o)", "from_items(items(o))", "zip(a, a)", "map(&@, a)", "not_null(a)", "[a, a]", "{x: a, y: o}",
-	"let $v = a in sort($v)", "a[0:2] | reverse(@)", "sort(a)[0]", "objs[?k > `1`] | sort_by(@, &k)", "join(',', s)", "sort(s)", "a || objs", "objs[].k", "o.*", "*", "avg(a)", "sum(a)", "a[:2]", "to_array(o)", "@", "$"}
+	"let $v = a in sort($v)", "a[0:2] | reverse(@)", "sort(a)[0]", "objs[?k > `1`] | sort_by(@, &k)", "join(',', s)", "sort(s)", "a || objs", "objs[].k", "o.*", "*", "avg(a)", "sum(a)", "a[:2]", "to_array(o)", "@", "$",
+	"@ == `null`", "type(@)", "a || `\"none\"`", "length(@)", "to_array(@)", "!@", "not_null(@, `1`)", "[@]", "{k: @}", "@ && a", "`1`", "'lit'"}
 
 func judgeHistories(c *GenCtx) []Diff {
 	var out []Diff
@@ -140,9 +141,9 @@ func judgeHistories(c *GenCtx) []Diff {
 		}
 		return `{"a":[` + strings.Join(a, ",") + `],"u":[` + strings.Join(u, ",") + `],"objs":[` + strings.Join(objs, ",") + `],"s":[` + strings.Join(s, ",") + `],"o":{"p":1,"q":[1,2]},"o2":{"q":5,"r":null}}`
 	}
-	aliasOperands := []string{"u", "u[*]", "u[]", "u[:]", "@.u", "(u)", "u || a", "[u][0]", "{k: u}.k", "not_null(u)", "let $v = u in $v", "`[3,1,2]`", "`[3,1,2]`[*]", "s", "s[*]",
+	aliasOperands := []string{"`{\"role\": \"guest\"}`", "`{\"z\": [2, 1]}`", "`{\"z\": [2, 1]}`.z", "{k: u, z: `1`}", "u", "u[*]", "u[]", "u[:]", "@.u", "(u)", "u || a", "[u][0]", "{k: u}.k", "not_null(u)", "let $v = u in $v", "`[3,1,2]`", "`[3,1,2]`[*]", "s", "s[*]",
 		"a", "a[*]", "to_array(u)", "map(&@, u)", "o", "o.q", "o.q[*]", "values(o)", "objs", "objs[*]"}
-	aliasFns := []string{"sort(%s)", "reverse(%s)", "sort_by(%s, &@)", "%s[*]", "%s[]", "%s[::-1]", "map(&@, %s)", "to_array(%s)", "merge(%s, {z: `1`})", "values(%s)", "items(%s)",
+	aliasFns := []string{"merge(%s, @)", "merge(%s, o)", "merge(%s, o, o2)", "merge(o, %s)", "merge(%s, {n: length(a)})", "sort(%s)", "reverse(%s)", "sort_by(%s, &@)", "%s[*]", "%s[]", "%s[::-1]", "map(&@, %s)", "to_array(%s)", "merge(%s, {z: `1`})", "values(%s)", "items(%s)",
 		"sort(%s[*])", "reverse(%s[*])", "sort(%s[])", "sort(sort(%s))", "%s | sort(@)", "[sort(%s), %s]", "[%s, reverse(%s)]", "sort_by(%s, &k)", "max_by(%s, &k)", "group_by(%s, &to_string(@))"}
 	for h := 0; h < nh; h++ {
 		expr := r.Pick(histExprs)
@@ -171,7 +172,7 @@ func judgeHistories(c *GenCtx) []Diff {
 		ce := jmespath.MustCompile(expr)
 		ncalls := 2 + r.Intn(6)
 		docs := make([]string, 0, ncalls)
-		pool := []string{mkDoc(), mkDoc(), mkDoc()}
+		pool := []string{mkDoc(), mkDoc(), mkDoc(), r.Pick([]string{"null", "1", `"s"`, "[]", "{}", "true", "[null]"})}
 		for i := 0; i < ncalls; i++ {
 			docs = append(docs, pool[r.Intn(len(pool))])
 		}
@@ -263,19 +264,30 @@ func judgeConcurrent(c *GenCtx) []Diff {
 	var out []Diff
 	r := c.Rng
 	rounds := c.n(150, 3000)
+	litFirst := []string{"merge(`{\"role\": \"guest\"}`, @)", "merge(`{\"role\": \"guest\"}`, o)", "merge(`{}`, o, o2)", "[`[3,1,2]`, sort(`[3,1,2]`)]", "`{\"z\": [2, 1]}`.z | sort(@)",
+		"merge({k: a}, o2)", "sort(a[?@])", "sort(s[*])", "reverse(s[*])", "sort_by(objs[*], &k)", "let $v = `{\"n\": 1}` in merge($v, o)"}
 	for k := 0; k < rounds; k++ {
 		expr := r.Pick(histExprs)
 		if r.Chance(30) {
 			expr = c.expr(2)
+		} else if r.Chance(30) {
+			expr = r.Pick(litFirst)
 		}
-		ce, err := jmespath.Compile(expr)
-		if err != nil {
+		if _, err := jmespath.Compile(expr); err != nil {
 			continue
 		}
-		d := `{"a":[5,3,null,1,4],"objs":[{"k":2,"i":0},{"k":1,"i":1},{"k":2,"i":2}],"s":["b","a"],"o":{"p":1,"q":[1,2]},"o2":{"q":5}}`
-		v, _ := parseXJSON(d)
-		shared := withSpareCapacity(v)
-		want, _ := searchOutcome(ce, shared)
+		// two shared documents with different members: state leaking from a call on one into a call on the other shows
+		ds := []string{`{"a":[5,3,null,1,4],"objs":[{"k":2,"i":0},{"k":1,"i":1},{"k":2,"i":2}],"s":["b","a"],"o":{"p":1,"q":[1,2]},"o2":{"q":5}}`,
+			`{"a":[2,9],"objs":[{"k":"x","i":7}],"s":["z","y","x"],"o":{"r":true,"role":"admin"},"o2":{"w":null},"extra":1}`}
+		var shared [2]any
+		var want [2]string
+		for j, d := range ds {
+			fresh, _ := parseXJSON(d)
+			want[j] = runSearch(expr, fresh) // a fresh one-shot search on a private copy, before anything is shared
+			v, _ := parseXJSON(d)
+			shared[j] = withSpareCapacity(v)
+		}
+		ce := jmespath.MustCompile(expr)
 		var wg sync.WaitGroup
 		var mu sync.Mutex
 		g := 16
@@ -283,23 +295,24 @@ func judgeConcurrent(c *GenCtx) []Diff {
 			wg.Add(1)
 			go func(i int) {
 				defer wg.Done()
+				j := (i / 3) % 2
 				var got string
 				switch i % 3 {
 				case 0:
-					got, _ = searchOutcome(ce, shared)
+					got, _ = searchOutcome(ce, shared[j])
 				case 1:
-					got = runSearch(expr, shared)
+					got = runSearch(expr, shared[j])
 				default:
 					e2, err := jmespath.Compile(expr)
 					if err != nil {
 						got = "err compile"
 					} else {
-						got, _ = searchOutcome(e2, shared)
+						got, _ = searchOutcome(e2, shared[j])
 					}
 				}
-				if !sameOutcome(expr, got, want) {
+				if !sameOutcome(expr, got, want[j]) {
 					mu.Lock()
-					out = append(out, jf("par", expr, d, got, want, "concurrent call differs from the sequential outcome"))
+					out = append(out, jf("par", expr, ds[j], got, want[j], "concurrent call differs from the outcome of a fresh call run alone"))
 					mu.Unlock()
 				}
 			}(i)
